@@ -6,7 +6,8 @@
 (* behind".                                                                   *)
 (*                                                                            *)
 (* One call of the function is modelled:                                      *)
-(*   consumer  = the calling goroutine:  make(primeCh, c*n), make(errCh, c),  *)
+(*   consumer  = the calling goroutine:  make(primeCh, PrimeCap), make(errCh,  *)
+(*               ErrCap) - in the code c*n and c -,                           *)
 (*               generatorCtx = WithCancel(ctx), the spawn loop (wg.Add(1);   *)
 (*               go ...), the select loop, and after `return` the deferred    *)
 (*               calls in the order Go runs them:                             *)
@@ -22,7 +23,20 @@
 (* The arithmetic is abstracted to one non-deterministic choice per attempt   *)
 (* ("this candidate is a safe prime" / "it is not"); what a returned pair     *)
 (* must look like is the business of Samplers.tla.  The entropy source is a   *)
-(* counter of reads that still succeed (Inf = it never fails).                *)
+(* counter of reads that still succeed (Inf = it never fails).  A source that *)
+(* fails may fail for every producer at the same moment (a closed descriptor, *)
+(* an exhausted stream): cfg.bar > 0 describes a reader whose failing Read    *)
+(* keeps its callers inside ("held") until it is opened - by the bar-th       *)
+(* caller arriving or by its own time limit - and then returns the error to   *)
+(* all of them at once.  With bar = 0 a failing Read returns immediately.     *)
+(*                                                                            *)
+(* The capacities of the two channels are constants of the model              *)
+(* (PrimeCapOf, ErrCapOf: functions of the configuration).  The code has      *)
+(* CodePrimeCap = c*n and CodeErrCap = c.  The error send of a producer is a  *)
+(* plain blocking send, so errCh must have room for every error that nobody   *)
+(* receives: the consumer receives at most one, and none when it returns for  *)
+(* another reason (enough primes, cancellation).  ErrCap < c deadlocks: see   *)
+(* the regression runs "spg-defect-errcap-*" of the harness.                  *)
 (*                                                                            *)
 (* Switches (both reproduce a wrong design, for regression demonstrations):   *)
 (*   SendSelectsOnCancel  TRUE : the send is `select { case primeCh <- x:     *)
@@ -40,12 +54,27 @@
 (*   c      number of producers (concurrency)          n   numPrimes          *)
 (*   budget number of entropy reads that succeed (Inf: all)                   *)
 (*   pre    the caller's context is already done when the call starts         *)
+(*   bar    0: a failing Read returns at once;  k > 0: it holds its callers   *)
+(*          until k of them are inside (or the reader's time limit passes)    *)
+(*   heal   FALSE: once exhausted the source fails for ever;  TRUE: a single  *)
+(*          Read fails, after it the source works again (a transient fault:   *)
+(*          one producer reports an error, the others go on finding primes)   *)
 EXTENDS Integers, FiniteSets, TLC
 
 CONSTANTS Configs, SendSelectsOnCancel, CloseBeforeWait,
-          MaxC      \* upper bound of cfg.c over Configs (size of the producer table)
+          MaxC,           \* upper bound of cfg.c over Configs (size of the producer table)
+          PrimeCapOf(_),  \* capacity of primeCh for a configuration   (the code: CodePrimeCap)
+          ErrCapOf(_)     \* capacity of errCh for a configuration     (the code: CodeErrCap)
 
 Inf == -1
+
+(* make(chan *GermainSafePrime, concurrency*numPrimes); make(chan error, concurrency) *)
+CodePrimeCap(c) == c.c * c.n
+CodeErrCap(c)   == c.c
+(* a buffered channel is modelled by its length; capacity 0 (rendezvous) is outside this model *)
+ASSUME \A c \in Configs : PrimeCapOf(c) >= 1 /\ ErrCapOf(c) >= 1
+(* a reader that holds its callers back fails all of them: no barrier at a transient fault *)
+ASSUME \A c \in Configs : c.heal => c.bar = 0 /\ c.budget # Inf
 
 VARIABLES
   cfg,          \* the configuration of this call
@@ -59,20 +88,22 @@ VARIABLES
   ownCancel,    \* cancelGeneratorCtx() has run
   reads,        \* successful entropy reads left (Inf: unlimited)
   readFailed,   \* the entropy source has returned an error at least once
+  barOpen,      \* the barrier of the failing reader is open (cfg.bar = 0: open from the start)
   wg,           \* WaitGroup counter
   got,          \* len(primes) in the consumer
   outcome,      \* what the call returns: "none" (not yet) | "primes" | "cancelled" | "entropy"
   sendPanic,    \* a producer executed a send on a closed channel (run-time panic)
   lateSteps     \* iterations of the consumer's select loop begun after the caller's ctx was done
 vars == <<cfg, ppc, cpc, spawned, primeLen, errLen, primeClosed, errClosed, extDone, ownCancel,
-          reads, readFailed, wg, got, outcome, sendPanic, lateSteps>>
+          reads, readFailed, barOpen, wg, got, outcome, sendPanic, lateSteps>>
 
 Producers == 1..cfg.c
-PrimeCap  == cfg.c * cfg.n
-ErrCap    == cfg.c
+PrimeCap  == PrimeCapOf(cfg)
+ErrCap    == ErrCapOf(cfg)
 GenDone   == extDone \/ ownCancel        \* generatorCtx is a child of ctx
 
-PStates == {"unstarted", "check", "read", "send", "senderr", "done"}
+PStates == {"unstarted", "check", "read", "held", "send", "senderr", "done"}
+Held    == {i \in Producers : ppc[i] = "held"}          \* producers inside the failing Read, waiting for the barrier
 (* the deferred calls, in execution order *)
 DeferOrder == IF CloseBeforeWait THEN <<"ret_cancel", "ret_closeerr", "ret_closeprime", "ret_wait", "done">>
                                  ELSE <<"ret_cancel", "ret_wait", "ret_closeerr", "ret_closeprime", "done">>
@@ -85,7 +116,7 @@ InitFor(c) ==
   /\ cpc = "spawn" /\ spawned = 0
   /\ primeLen = 0 /\ errLen = 0 /\ primeClosed = FALSE /\ errClosed = FALSE
   /\ extDone = c.pre /\ ownCancel = FALSE
-  /\ reads = c.budget /\ readFailed = FALSE
+  /\ reads = c.budget /\ readFailed = FALSE /\ barOpen = (c.bar = 0)
   /\ wg = 0 /\ got = 0 /\ outcome = "none" /\ sendPanic = FALSE /\ lateSteps = 0
 
 Init == \E c \in Configs : InitFor(c)
@@ -97,7 +128,7 @@ ResetFor(c) ==
   /\ cpc' = "spawn" /\ spawned' = 0
   /\ primeLen' = 0 /\ errLen' = 0 /\ primeClosed' = FALSE /\ errClosed' = FALSE
   /\ extDone' = c.pre /\ ownCancel' = FALSE
-  /\ reads' = c.budget /\ readFailed' = FALSE
+  /\ reads' = c.budget /\ readFailed' = FALSE /\ barOpen' = (c.bar = 0)
   /\ wg' = 0 /\ got' = 0 /\ outcome' = "none" /\ sendPanic' = FALSE /\ lateSteps' = 0
 
 -----------------------------------------------------------------------------
@@ -110,14 +141,22 @@ PCheck(i) ==
   /\ ppc[i] = "check"
   /\ IF GenDone THEN Exit(i)
                 ELSE ppc' = [ppc EXCEPT ![i] = "read"] /\ UNCHANGED wg
-  /\ UNCHANGED <<cfg, cpc, spawned, primeLen, errLen, primeClosed, errClosed, extDone, ownCancel, reads,
+  /\ UNCHANGED <<cfg, barOpen, cpc, spawned, primeLen, errLen, primeClosed, errClosed, extDone, ownCancel, reads,
                  readFailed, got, outcome, sendPanic, lateSteps>>
 
-(* io.ReadFull fails *)
+(* io.ReadFull fails.  A producer whose Read meets the exhausted source while the reader's barrier is still *)
+(* closed waits inside Read ("held"); the error comes back when the barrier is open.                        *)
+PReadHold(i) ==
+  /\ ppc[i] = "read" /\ reads = 0 /\ ~barOpen
+  /\ ppc' = [ppc EXCEPT ![i] = "held"]
+  /\ UNCHANGED <<cfg, barOpen, cpc, spawned, primeLen, errLen, primeClosed, errClosed, extDone, ownCancel, reads,
+                 readFailed, wg, got, outcome, sendPanic, lateSteps>>
+
 PReadFail(i) ==
-  /\ ppc[i] = "read" /\ reads = 0
+  /\ ppc[i] \in {"read", "held"} /\ reads = 0 /\ barOpen
   /\ ppc' = [ppc EXCEPT ![i] = "senderr"] /\ readFailed' = TRUE
-  /\ UNCHANGED <<cfg, cpc, spawned, primeLen, errLen, primeClosed, errClosed, extDone, ownCancel, reads,
+  /\ reads' = IF cfg.heal THEN Inf ELSE reads
+  /\ UNCHANGED <<cfg, barOpen, cpc, spawned, primeLen, errLen, primeClosed, errClosed, extDone, ownCancel,
                  wg, got, outcome, sendPanic, lateSteps>>
 
 ReadOK == reads # 0 /\ reads' = IF reads = Inf THEN Inf ELSE reads - 1
@@ -127,14 +166,14 @@ ReadOK == reads # 0 /\ reads' = IF reads = Inf THEN Inf ELSE reads - 1
 PReadMiss(i) ==
   /\ ppc[i] = "read" /\ ReadOK
   /\ ppc' = [ppc EXCEPT ![i] = "check"]
-  /\ UNCHANGED <<cfg, cpc, spawned, primeLen, errLen, primeClosed, errClosed, extDone, ownCancel,
+  /\ UNCHANGED <<cfg, barOpen, cpc, spawned, primeLen, errLen, primeClosed, errClosed, extDone, ownCancel,
                  readFailed, wg, got, outcome, sendPanic, lateSteps>>
 
 (* ... it is one: go and send it *)
 PReadFound(i) ==
   /\ ppc[i] = "read" /\ ReadOK
   /\ ppc' = [ppc EXCEPT ![i] = "send"]
-  /\ UNCHANGED <<cfg, cpc, spawned, primeLen, errLen, primeClosed, errClosed, extDone, ownCancel,
+  /\ UNCHANGED <<cfg, barOpen, cpc, spawned, primeLen, errLen, primeClosed, errClosed, extDone, ownCancel,
                  readFailed, wg, got, outcome, sendPanic, lateSteps>>
 
 (* `errCh <- err; return` - a plain send: blocks while the buffer is full, panics on a closed channel *)
@@ -143,7 +182,7 @@ PSendErr(i) ==
   /\ IF errClosed
        THEN sendPanic' = TRUE /\ Exit(i) /\ UNCHANGED errLen
        ELSE errLen < ErrCap /\ errLen' = errLen + 1 /\ Exit(i) /\ UNCHANGED sendPanic
-  /\ UNCHANGED <<cfg, cpc, spawned, primeLen, primeClosed, errClosed, extDone, ownCancel, reads,
+  /\ UNCHANGED <<cfg, barOpen, cpc, spawned, primeLen, primeClosed, errClosed, extDone, ownCancel, reads,
                  readFailed, got, outcome, lateSteps>>
 
 (* the send of a result.  A send on a closed channel panics, also inside a select. *)
@@ -157,10 +196,10 @@ PSend(i) ==
         /\ UNCHANGED <<wg, sendPanic>>
      \/ /\ SendSelectsOnCancel /\ GenDone                            \* case <-ctx.Done(): return
         /\ Exit(i) /\ UNCHANGED <<primeLen, sendPanic>>
-  /\ UNCHANGED <<cfg, cpc, spawned, errLen, primeClosed, errClosed, extDone, ownCancel, reads,
+  /\ UNCHANGED <<cfg, barOpen, cpc, spawned, errLen, primeClosed, errClosed, extDone, ownCancel, reads,
                  readFailed, got, outcome, lateSteps>>
 
-Producer(i) == PCheck(i) \/ PReadFail(i) \/ PReadMiss(i) \/ PReadFound(i) \/ PSendErr(i) \/ PSend(i)
+Producer(i) == PCheck(i) \/ PReadHold(i) \/ PReadFail(i) \/ PReadMiss(i) \/ PReadFound(i) \/ PSendErr(i) \/ PSend(i)
 
 -----------------------------------------------------------------------------
 (* consumer *)
@@ -173,7 +212,7 @@ CSpawn ==
             /\ ppc' = [ppc EXCEPT ![spawned + 1] = "check"]
             /\ UNCHANGED cpc
        ELSE cpc' = "select" /\ UNCHANGED <<spawned, wg, ppc>>
-  /\ UNCHANGED <<cfg, primeLen, errLen, primeClosed, errClosed, extDone, ownCancel, reads, readFailed,
+  /\ UNCHANGED <<cfg, barOpen, primeLen, errLen, primeClosed, errClosed, extDone, ownCancel, reads, readFailed,
                  got, outcome, sendPanic, lateSteps>>
 
 Return(o) == outcome' = o /\ cpc' = DeferOrder[1]
@@ -191,7 +230,7 @@ CSelect ==
         /\ errLen' = errLen - 1 /\ Return("entropy") /\ UNCHANGED <<primeLen, got>>
      \/ /\ extDone
         /\ Return("cancelled") /\ UNCHANGED <<primeLen, errLen, got>>
-  /\ UNCHANGED <<cfg, ppc, spawned, primeClosed, errClosed, extDone, ownCancel, reads, readFailed, wg, sendPanic>>
+  /\ UNCHANGED <<cfg, barOpen, ppc, spawned, primeClosed, errClosed, extDone, ownCancel, reads, readFailed, wg, sendPanic>>
 
 (* the deferred calls *)
 CDefer ==
@@ -201,7 +240,7 @@ CDefer ==
        [] cpc = "ret_wait"       -> wg = 0 /\ UNCHANGED <<ownCancel, errClosed, primeClosed>>   \* blocks until every producer has exited
        [] cpc = "ret_closeerr"   -> errClosed' = TRUE /\ UNCHANGED <<ownCancel, primeClosed>>
        [] cpc = "ret_closeprime" -> primeClosed' = TRUE /\ UNCHANGED <<ownCancel, errClosed>>
-  /\ UNCHANGED <<cfg, ppc, spawned, primeLen, errLen, extDone, reads, readFailed, wg, got, outcome, sendPanic, lateSteps>>
+  /\ UNCHANGED <<cfg, barOpen, ppc, spawned, primeLen, errLen, extDone, reads, readFailed, wg, got, outcome, sendPanic, lateSteps>>
 
 Consumer == CSpawn \/ CSelect \/ CDefer
 
@@ -210,8 +249,18 @@ Consumer == CSpawn \/ CSelect \/ CDefer
 ExtCancel ==
   /\ ~extDone /\ cpc # "done"
   /\ extDone' = TRUE
-  /\ UNCHANGED <<cfg, ppc, cpc, spawned, primeLen, errLen, primeClosed, errClosed, ownCancel, reads,
+  /\ UNCHANGED <<cfg, barOpen, ppc, cpc, spawned, primeLen, errLen, primeClosed, errClosed, ownCancel, reads,
                  readFailed, wg, got, outcome, sendPanic, lateSteps>>
+
+(* the reader opens its barrier: the bar-th caller has arrived, or the reader's own time limit has passed *)
+(* (time is not modelled: the step may be taken at any moment; the trace module records how many callers  *)
+(* were inside and which of the two reasons applied)                                                      *)
+BarOpen ==
+  /\ ~barOpen /\ cpc # "done"
+  /\ barOpen' = TRUE
+  /\ UNCHANGED <<cfg, ppc, cpc, spawned, primeLen, errLen, primeClosed, errClosed, extDone, ownCancel, reads,
+                 readFailed, wg, got, outcome, sendPanic, lateSteps>>
+BarFull == Cardinality(Held) >= cfg.bar
 
 Returned  == cpc = "done"
 Quiescent == Returned /\ \A i \in Producers : ppc[i] = "done"
@@ -219,12 +268,13 @@ Quiescent == Returned /\ \A i \in Producers : ppc[i] = "done"
 Finished == Quiescent /\ UNCHANGED vars
 
 Step == Consumer \/ (\E i \in Producers : Producer(i))
-Next == Step \/ ExtCancel \/ Finished
+Next == Step \/ ExtCancel \/ BarOpen \/ Finished
 
 (* Fairness: every goroutine that can run does run (weak fairness); a producer that keeps trying *)
-(* eventually hits a safe prime (strong fairness of the lucky branch).  The canceller owes nothing. *)
+(* eventually hits a safe prime (strong fairness of the lucky branch).  The canceller owes nothing; *)
+(* the reader does open its barrier (it has a time limit).                                          *)
 Fairness ==
-  /\ WF_vars(Consumer)
+  /\ WF_vars(Consumer) /\ WF_vars(BarOpen)
   /\ \A i \in 1..MaxC : WF_vars(Producer(i)) /\ SF_vars(PReadFound(i))
 Spec == Init /\ [][Next]_vars /\ Fairness
 
@@ -236,7 +286,7 @@ TypeOK ==
   /\ ppc \in [1..MaxC -> PStates] /\ cpc \in CStates /\ spawned \in 0..cfg.c
   /\ primeLen \in 0..PrimeCap /\ errLen \in 0..ErrCap
   /\ primeClosed \in BOOLEAN /\ errClosed \in BOOLEAN /\ extDone \in BOOLEAN /\ ownCancel \in BOOLEAN
-  /\ reads \in {Inf} \cup 0..cfg.budget /\ readFailed \in BOOLEAN
+  /\ reads \in {Inf} \cup 0..cfg.budget /\ readFailed \in BOOLEAN /\ barOpen \in BOOLEAN
   /\ wg \in 0..cfg.c /\ got \in 0..cfg.n
   /\ outcome \in {"none", "primes", "cancelled", "entropy"} /\ sendPanic \in BOOLEAN
   /\ lateSteps \in 0..(cfg.n + 1)
@@ -250,20 +300,24 @@ NoLeak == Returned => \A i \in Producers : ppc[i] = "done"
 (* no producer ever sends on a closed channel (would be a run-time panic in a library goroutine) *)
 NoSendOnClosed == ~sendPanic
 
-(* the error send can never block: errCh holds one error per producer *)
-ErrSendNeverBlocks == \A i \in Producers : ppc[i] = "senderr" /\ ~errClosed => errLen < ErrCap
+(* the error send can never block: errCh has room for the error of every producer that is about to send *)
+(* one (a plain send: a producer that blocks here never reaches wg.Done())                               *)
+ErrSendNeverBlocks ==
+  ~errClosed => errLen + Cardinality({i \in Producers : ppc[i] = "senderr"}) <= ErrCap
+(* producers wait inside Read only at a reader with a barrier, and only once the source is exhausted *)
+HeldOnlyAtFailure == Held # {} => reads = 0 /\ cfg.bar > 0
 
 (* "returns the requested number of pairs" or an error - and each error has its cause *)
 ResultCount == outcome # "none" =>
-  /\ outcome = "primes"    => got = cfg.n /\ (cfg.budget = Inf \/ cfg.budget - reads >= cfg.n)
+  /\ outcome = "primes"    => got = cfg.n /\ (cfg.budget = Inf \/ (cfg.heal /\ readFailed) \/ cfg.budget - reads >= cfg.n)
   /\ outcome = "cancelled" => extDone
-  /\ outcome = "entropy"   => readFailed /\ reads = 0
+  /\ outcome = "entropy"   => readFailed /\ (reads = 0 \/ cfg.heal)
 (* no error without a cause: an undisturbed call with a working entropy source can only return primes *)
 NoSpuriousError == (outcome \in {"cancelled", "entropy"}) => (extDone \/ readFailed)
 (* a context that is done before the call yields nothing but the cancellation error; *)
 (* an entropy source that fails at the first read never yields primes               *)
 PreCancelled == cfg.pre /\ outcome # "none" => outcome = "cancelled" /\ reads = cfg.budget
-NoEntropyNoPrimes == cfg.budget # Inf /\ cfg.budget < cfg.n => outcome # "primes"
+NoEntropyNoPrimes == cfg.budget # Inf /\ cfg.budget < cfg.n /\ ~cfg.heal => outcome # "primes"
 
 (* "stops promptly ... when its context is cancelled": once the caller's ctx is done the consumer begins   *)
 (* at most n further iterations of its loop (each may still pick a buffered result), and (liveness, weak  *)
